@@ -46,7 +46,9 @@ RD = {
     "CHA": dns.rdata.from_text("CH", "TXT", '"ch"'),
     "SIGA": rd("RRSIG", "A 8 2 300 20300101000000 20000101000000 1 example. AAAA"),
     "NSEC": rd("NSEC", "z.example. A"),
+    "SIGCN": rd("RRSIG", "CNAME 8 2 300 20300101000000 20000101000000 1 example. BBBB"),
 }
+MAXTTL = 2 ** 32 - 1
 NAMES = {"@": dns.name.empty, "a": dns.name.from_text("a", None), "b.a": dns.name.from_text("b.a", None),
          "c": dns.name.from_text("c", None)}
 
@@ -79,6 +81,12 @@ def alphabet(tier):
     ops += [("update_serial",), ("update_serial", 5), ("update_serial", 7, False), ("update_serial", 0, False),
             ("update_serial", -1), ("update_serial", 2 ** 31 - 1), ("update_serial", 2 ** 31),
             ("update_serial", 1, True, "@"), ("update_serial", 1, True, "a")]
+    # appended last so that the indices of the pair sub-alphabets stay what they were:
+    # the signature of a CNAME lives beside the CNAME (both are CNAME-kind rdatasets); the largest
+    # legal TTL in every argument form
+    ops += [("add", "a", "nt", ("SIGCN",), 10), ("delete", "a", "type", "RRSIG", "CNAME"),
+            ("add", "c", "nt", ("TXT",), MAXTTL), ("add", "c", "rds", ("TXT",), MAXTTL),
+            ("replace", "c", "rrset", ("TXT",), MAXTTL), ("replace", "b.a", "nt", ("A1",), MAXTTL)]
     return ops
 
 
@@ -608,7 +616,7 @@ def run(ctx):
                 "{commit, rollback, exception after op 1}, each on plain/versioned/btree x relativize on/off; reads "
                 "inside the transaction compared after every op; ended and read-only transactions get every call; "
                 "distinct = distinct (initial zone, content)" % len(ops))
-    ctx.assume("names {@, a, b.a, c}; records A x2, TXT, CNAME x2, NS, SOA, NSEC, RRSIG(A), CH-class TXT; TTLs 3-20")
+    ctx.assume("names {@, a, b.a, c}; records A x2, TXT, CNAME x2, NS, SOA, NSEC, RRSIG(A), RRSIG(CNAME), CH-class TXT; TTLs 3-20 and 2^32-1")
     ctx.assume("changed() is only constrained when content differs (must be True) or no operation succeeded (must be False)")
     # sub-alphabet for pairs: indices chosen to cover every verb/argument form
     pair_q = [0, 1, 5, 7, 10, 13, 17, 19, 22, 26, 31, 33, 37, 41, 46, 48, 52, 53, 55]
